@@ -201,7 +201,7 @@ def run_native(crate, h):
     `VERIF_REPLAY_K=V ...` naming the first failing case"""
     d = _prep(crate)
     env = _env(crate)
-    env.update(h.get('env', {}))
+    env.update({k: v.replace('@VERIF@', VERIF) for k, v in h.get('env', {}).items()})
     t0 = time.time()
     try:
         p = subprocess.run(h['cmd'], cwd=d, env=env, stdout=subprocess.PIPE, stderr=subprocess.STDOUT, text=True,
